@@ -116,6 +116,42 @@ def kf_pytz_second_pass(z, inst, r):
     return obs.fields(r) == exp_f and obs.instant_us(r) // US == sols[0]
 
 
+def check_native_walls(acc, pendulum, z, tr):
+    """instance() of an aware NATIVE datetime whose wall time is skipped or repeated in its zone (either fold): the instant
+    it denotes is wall - tzinfo.utcoffset() (PEP 495: the offset before the change for fold 0, after it for fold 1);
+    the tzinfo is pendulum's own Timezone, or zoneinfo's."""
+    t, ob, oa = tr
+    for w in seeds.wall_probes(t, ob, oa):
+        f = seeds.fields_of_wall(w)
+        if not (2 <= f[0] <= 9998):
+            continue
+        for fold in (0, 1):
+            sols = tzref.zone(z).solve(w // US)
+            if len(sols) == 1:
+                off = sols[0]
+            elif len(sols) == 2:
+                off = sorted(sols, reverse=True)[fold]         # repeated: first pass carries the larger offset
+            else:
+                off = ob if fold == 0 else oa                  # skipped
+            inst = w - off * US
+            exp = obs.expected_render(z, inst)
+            for kname, ktz in (("pendulum", _tz(pendulum, z)), ("zoneinfo", _zi(z))):
+                nk = dt_.datetime(*f, tzinfo=ktz, fold=fold)
+                if nk.utcoffset() != dt_.timedelta(seconds=off):
+                    acc.c["skipped_db_mismatch"] += 1
+                    continue
+                case = {"kind": "nwall", "z": z, "tr": list(tr), "wall": w, "fold": fold, "tzkind": kname}
+                try:
+                    r = pendulum.instance(nk)
+                    got = (obs.fields(r), obs.offset_s(r))
+                except Exception as e:  # noqa: BLE001
+                    got = f"raises {type(e).__name__}"
+                acc.c["transitions"] += 1
+                if got != exp:
+                    acc.mismatch(f"instance(native-wall/{kname})", "instant" if len(sols) != 1 else "rendering", case,
+                                 got, list(exp))
+
+
 def explore_state(acc, pendulum, z, inst, inter, deep=True, kinds=True):
     """All operations from the model state (inst, z)."""
     tzobj = _tz(pendulum, z)
@@ -424,6 +460,8 @@ def run_shard(shard):
                 plan_.append((None, seeds.grid_instants(370 if not shard["full"] else 37)))
                 acc.c["nontrivial"] += sum(len(p) for tr, p in plan_ if tr is not None)
             for tr, insts in plan_:
+                if tr is not None:
+                    check_native_walls(acc, pendulum, z, tr)
                 inter = _inter_for(z, tr, witness)
                 for inst in insts:
                     states += 1
@@ -474,6 +512,9 @@ def replay_case(case, acc):
             local_step(acc, pendulum, case["history"], replaying=True)
         finally:
             pendulum.set_local_timezone()
+        return
+    if case.get("kind") == "nwall":
+        check_native_walls(acc, pendulum, case["z"], tuple(case["tr"]))
         return
     z, inst = case["z"], case["inst"]
     if case["kind"] == "pair":
